@@ -222,7 +222,7 @@ func (e *Exec) sharing64(ev *Event, targets []int) {
 				sb, _ := view64(e.slots64[b])
 				w := !sb.contains(v)
 				A.Add(v)
-				ev.Probe = append(ev.Probe, ProbeRec{a, b, w})
+				ev.Probe = append(ev.Probe, ProbeRec{a, b, w, false})
 				if w {
 					rebuild(a, snapA)
 					rebuild(b, snapB)
